@@ -349,7 +349,9 @@ def run_cli(case):
     if len(case["roots"]) != 1:
         return None
     root = case["rel"][case["roots"][0]]
-    args = [C.BINDGEN, "--formatter=none", root, "-o", case["out"], "--depfile", "cli.d", "--"] + case["clang_args"]
+    # which kinds of items are generated has nothing to do with which files were read
+    kinds = [[], ["--generate", "functions,types"], ["--ignore-functions"], ["--generate", "types"]][sum(map(ord, case["id"])) % 4]
+    args = [C.BINDGEN, "--formatter=none", root, "-o", case["out"], "--depfile", "cli.d"] + kinds + ["--"] + case["clang_args"]
     env = dict(os.environ)
     for k in ("TARGET", "BINDGEN_EXTRA_CLANG_ARGS", "BINDGEN_VERIF_DETAIL"):
         env.pop(k, None)
